@@ -6,6 +6,7 @@ import (
 	"math/rand/v2"
 	"os"
 	"path/filepath"
+	"runtime"
 	"strings"
 	"sync"
 	"sync/atomic"
@@ -191,6 +192,13 @@ func runC06Routes(tier string, seed uint64, idx int) core.Result {
 	rng := core.CaseSeed(seed, "C06.routes", idx)
 	vhook.Clear()
 	defer vhook.Clear()
+	if os.Getenv("VERIF_TRACE_CLOSE") != "" {
+		vhook.Set("pebble.close", func(_ string, args ...any) {
+			buf := make([]byte, 8192)
+			buf = buf[:runtime.Stack(buf, false)]
+			fmt.Fprintf(os.Stderr, "PEBBLE-CLOSE %p at %s\n%s\n", args[0], time.Now().Format("15:04:05.000000"), buf)
+		})
+	}
 	oldChunk := kv.MaxSnapshotChunkSize
 	kv.MaxSnapshotChunkSize = []int64{64, 1024, 64 * 1024, 1024 * 1024}[rng.IntN(4)]
 	defer func() { kv.MaxSnapshotChunkSize = oldChunk }()
